@@ -44,9 +44,43 @@ def _dtm(text):
     return dt.datetime.fromisoformat(text)
 
 
+USE_EXTRAS = [True]
+
+
+def build_world(spec):
+    """Materialise a world. If the data classes refuse it and it carries
+    generically filled fields (fields added to a data class that the builders
+    do not know: their legal values may be decided by a validator function
+    the generator cannot see), it is built again without them: those fields
+    then go unexercised, the world is still an input."""
+    try:
+        return World(spec)
+    except Exception:
+        if not _has_extras(spec):
+            raise
+    USE_EXTRAS[0] = False
+    try:
+        return World(spec)
+    finally:
+        USE_EXTRAS[0] = True
+
+
+def _has_extras(spec) -> bool:
+    for pool in spec.values():
+        if isinstance(pool, list):
+            if any(isinstance(e, dict) and e.get("extra") for e in pool):
+                return True
+        elif isinstance(pool, dict):
+            if any(isinstance(e, dict) and e.get("extra") for e in pool.values()):
+                return True
+    return False
+
+
 def _extra(entity):
     """Generically filled declared fields (specs.fill_extra)."""
     out = {}
+    if not USE_EXTRAS[0]:
+        return out
     for name, value in (entity.get("extra") or {}).items():
         if isinstance(value, dict) and "__datetime" in value:
             value = _dtm(value["__datetime"])
@@ -597,6 +631,13 @@ def _outcome_of(exc: BaseException) -> dict:
     title = getattr(exc, "title", None)  # pydantic: the class that refused
     if isinstance(title, str):
         out["title"] = title
+        try:
+            # ... and the fields it refused ("" = the model as a whole)
+            out["locs"] = sorted({
+                str(e["loc"][0]) if e.get("loc") else "" for e in exc.errors()
+            })
+        except Exception:  # noqa: BLE001
+            pass
     return out
 
 
@@ -605,7 +646,7 @@ def _resolve_source(src):
         return OBJECTS[src["handle"]]
     world = WORLDS.get(src["world"])
     if world is None:
-        world = World(src["spec"])
+        world = build_world(src["spec"])
         WORLDS[src["world"]] = world
     return world.root(src["root"])
 
@@ -885,6 +926,11 @@ def _apply_edits(pools, roots, rng, seed):
     return done
 
 
+def _versions(canon) -> int:
+    """Number of identifiers that occur with more than one content."""
+    return sum(1 for key in canon["defs"] if not key.endswith("#0"))
+
+
 def h_edit_loaded(handle, seed):
     """Edit, in place, objects of a collection that ``load`` returned (the
     way a program loads a project, corrects an annotation and saves it)."""
@@ -895,8 +941,16 @@ def h_edit_loaded(handle, seed):
         return {"outcome": "skipped"}
     pools = {}
     _collect_models(root, pools, set())
+    before = describe(root)
     done = _apply_edits(pools, [root], random.Random(seed), seed)
-    return {"outcome": "ack", "edits": done, **describe(root)}
+    after = describe(root)
+    if _versions(after["canon"]) > _versions(before["canon"]):
+        # the loader handed out two Python objects for one identifier (a
+        # model configured to copy nested instances does) and the edit
+        # reached only one of them: one identifier, two contents is not
+        # something a document can hold, so this is not an input of save
+        return {"outcome": "inconsistent", "edits": done}
+    return {"outcome": "ack", "edits": done, **after}
 
 
 def h_touch(world, seed):
@@ -1140,7 +1194,9 @@ def _verdict(fn):
     try:
         obj = fn()
     except Exception as exc:
-        return {"verdict": "reject", "exc": type(exc).__name__}, None
+        why = _outcome_of(exc)
+        return {"verdict": "reject", "exc": type(exc).__name__,
+                "title": why.get("title"), "locs": why.get("locs")}, None
     return {"verdict": "accept"}, obj
 
 
@@ -1199,7 +1255,7 @@ def h_arrange(spec, target, doc_path, handle, base_spec=None):
         for pool in order[order.index(cut):]:
             lazy[pool] = []
     try:
-        world = World(lazy)
+        world = build_world(lazy)
     except Exception as exc:
         return {
             "outcome": "raised",
@@ -1210,7 +1266,7 @@ def h_arrange(spec, target, doc_path, handle, base_spec=None):
     base_world = None
     if base_spec is not None:
         try:
-            base_world = World(base_spec)  # validated first, same identifiers
+            base_world = build_world(base_spec)  # validated first, same identifiers
         except Exception as exc:
             return {**_outcome_of(exc), "base": True}
         for kind in ("evaluation", "annotation_project"):
